@@ -101,6 +101,7 @@ static int mode_files(int cases)
     for (int c = 0; c < cases; c++) {
         int nr_exp = rng.range(2, 6), aniso = rng.range(0, 2), div = rng.range(0, 1);
         int precision = rng.pick(std::vector<int>{16, 17, 18}); // full double precision; fewer digits fail the loader's own 1e3*eps validity checks (clean exception)
+        printf("FILECASE nr_exp=%d aniso=%d div=%d precision=%d\n", nr_exp, aniso, div, precision);
         try {
             PolarGrid g(1e-5, 1.3, nr_exp, -1, 0.66, aniso < nr_exp ? aniso : 0, div);
             g.writeToFile(fr, ft, precision);
@@ -139,6 +140,7 @@ static int mode_files(int cases)
     attempt("non-monotone", "0.1\n0.5\n0.4\n1.3\n", good_t, true, true);
     attempt("no-antipode", "0.1\n0.5\n1.3\n", "0\n1.0\n3.1415926535897931\n6.2831853071795862\n", true, true);
     attempt("good", "0.1\n0.5\n1.3\n", good_t, true, true);
+    attempt("good-two-radii", "0.1\n1.3\n", good_t, true, true); // the smallest grid the constructor accepts (finding F13)
     unlink(fr.c_str()); unlink(ft.c_str()); rmdir(dir);
     printf("end\n");
     return 0;
